@@ -136,7 +136,22 @@ func c06Scan(L string, schemas ast.Schemas) []c06Instance {
 	return out
 }
 
+// c06Check judges one case. cog's chains are not perfectly deterministic (a
+// reported C03 matter: a discriminator inferred by ranging over a Go map); an
+// evaluation in which the replayed chain and the pipeline's own run disagree
+// cannot attribute anything and is repeated; a case that stays unstable is
+// skipped and counted.
 func c06Check(c c06Case) []vlib.Violation {
+	for attempt := 0; attempt < 3; attempt++ {
+		vs, unstable := c06CheckOnce(c)
+		if !unstable {
+			return vs
+		}
+	}
+	return []vlib.Violation{vlib.V("skip:unstable-chain", "%s chain: two runs on the same input disagree (C03's matter)", c.Lang)}
+}
+
+func c06CheckOnce(c c06Case) ([]vlib.Violation, bool) {
 	schemas := c.IR.Build()
 	inputObjects := map[string]bool{}
 	for _, n := range c.IR.ObjectNames() {
@@ -152,14 +167,14 @@ func c06Check(c c06Case) []vlib.Violation {
 		out, err = ctx.Schemas, e
 	})
 	if panicked {
-		return []vlib.Violation{vlib.V("skip:panic:"+sig, "%s chain panicked: %s", c.Lang, msg)}
+		return []vlib.Violation{vlib.V("skip:panic:"+sig, "%s chain panicked: %s", c.Lang, msg)}, false
 	}
 	if err != nil {
-		return []vlib.Violation{vlib.V("skip:rejected", "%s chain refused the input: %v", c.Lang, err)}
+		return []vlib.Violation{vlib.V("skip:rejected", "%s chain refused the input: %v", c.Lang, err)}, false
 	}
 	final := c06Scan(L, out)
 	if len(final) == 0 {
-		return nil
+		return nil, false
 	}
 	// attribution: replay the chain pass by pass; a violating position that
 	// was not violating in the input was introduced by the first pass after
@@ -177,6 +192,9 @@ func c06Check(c c06Case) []vlib.Violation {
 	// by one on each other's output is not the same thing: Process deep-copies
 	// and some passes behave differently on re-entry)
 	nPasses := len(cogx.NewLanguage(c.Lang).CompilerPasses())
+	// snaps[k]: the field table after the first k passes (snaps[0]: the input)
+	snaps := []map[string]c06Field{c06Fields(schemas)}
+	passNames := []string{"input"}
 	for k := 1; k <= nPasses; k++ {
 		prefix := cogx.NewLanguage(c.Lang).CompilerPasses()[:k]
 		pass := prefix[k-1]
@@ -187,6 +205,8 @@ func c06Check(c c06Case) []vlib.Violation {
 		if p || perr != nil {
 			break
 		}
+		snaps = append(snaps, c06Fields(next))
+		passNames = append(passNames, passName)
 		nowSet := map[string]bool{}
 		for _, in := range c06Scan(L, next) {
 			k := in.symptom + "@" + in.key
@@ -196,6 +216,21 @@ func c06Check(c c06Case) []vlib.Violation {
 			}
 		}
 		prevSet = nowSet
+	}
+	if len(snaps) == nPasses+1 {
+		// the replayed chain must have arrived where the pipeline arrived
+		finalSet := map[string]bool{}
+		for _, in := range final {
+			finalSet[in.symptom+"@"+in.key] = true
+		}
+		if len(prevSet) != len(finalSet) {
+			return nil, true
+		}
+		for k := range finalSet {
+			if !prevSet[k] {
+				return nil, true
+			}
+		}
 	}
 	var vs []vlib.Violation
 	seen := map[string]bool{}
@@ -219,7 +254,21 @@ func c06Check(c c06Case) []vlib.Violation {
 		seen[s] = true
 		vs = append(vs, vlib.V(s, "%s [%s]", in.msg, cause))
 	}
-	return vs
+	if len(snaps) == nPasses+1 {
+		for _, d := range c06Dropped(L, c06Fields(out), snaps, passNames) {
+			origin := "input-object"
+			if !inputObjects[d.obj] {
+				origin = "created-object"
+			}
+			s := fmt.Sprintf("optional-nullability-dropped:%s:%s:%s:%s:after-%s", L, origin, d.pos, d.change, d.pass)
+			if seen[s] {
+				continue
+			}
+			seen[s] = true
+			vs = append(vs, vlib.V(s, "%s: field %s is not required and its type (%s) was nullable until %s replaced it by a %s that is not nullable", L, d.key, d.before, d.pass, d.after))
+		}
+	}
+	return vs, false
 }
 
 func c06Config() irgen.Config {
@@ -232,10 +281,13 @@ func TestC06(t *testing.T) {
 	run := vlib.Begin(t, "C06")
 	defer run.Finish(t)
 	run.Describe(
-		"IRs of 1-3 packages x 1-7 objects, nesting <= 5 (unions inside arrays inside union branches, structs in map values of struct fields of union branches, T|null and enums at every position, intersections, constant references) run through the built-in chain of go/java/php/python/typescript (Pipeline.ContextForLanguage, builders off). An independent reflective walker (hint contents ignored) checks: go/java no union anywhere; go/java/php enums only as an object's top-level type; go/java/php/python structs only as an object's top-level type or directly under an allOf composition, every non-required field nullable, no two-branch T|null union; enum member names: go prefixed with UpperCamel(object), typescript/python never purely numeric, php non-empty and not starting with +/-. Non-trivial: nesting depth >= 3 with a union, enum or struct in a non-top-level position; distinct by case hash.",
+		"IRs of 1-3 packages x 1-7 objects, nesting <= 5 (unions inside arrays inside union branches, structs in map values of struct fields of union branches, T|null and enums at every position, intersections, constant references), then 0-3 'shape reuse' operations: a type found in a package (a union four times out of six, else an anonymous enum / struct / collection) or a freshly drawn union of 2-3 branches (scalars, a list, references to struct objects, sometimes null) is copied into another struct field (appended or replacing one, at any depth of a struct object; same package, one in seven from any package), as is or varied (null branch added / removed, branches rotated, wrapped in an array or a map), the field non-required three times out of four; so the same union shape (same generated name) recurs within one schema, in required and non-required positions, with and without null. The IR is run through the built-in chain of go/java/php/python/typescript (Pipeline.ContextForLanguage, builders off). Oracle 1, an independent reflective walker (hint contents ignored) over the result: go/java no union anywhere; go/java/php enums only as an object's top-level type; go/java/php/python structs only as an object's top-level type or directly under an allOf composition, every non-required field nullable, no two-branch T|null union; enum member names: go prefixed with UpperCamel(object), typescript/python never purely numeric, php non-empty and not starting with +/-; each violating position is attributed to the pass after which it last started to violate (every prefix of the chain is replayed from the input). Oracle 2 (history of a field, go/java/php/python): a table of all struct fields under exact keys (object, field names, branch indices) after every prefix of the chain; a field of the result that is non-required and not nullable although the SAME field was non-required and nullable before the pass that last broke it is reported as `optional-nullability-dropped` with the kinds before>after and the pass (a pass that replaces a type - union by reference to the generated object, union by scalar, enum by reference, reference by its target - must carry the nullable flag over, on every code path, also when the generated object exists already); this is kept apart from non-nullable fields of objects a pass created and never normalised. Excluded by construction (three reported defects, counted under excluded:*): a non-required field whose union resolves to scalars of one kind is made required; a union with null whose other branches FlattenDisjunctions merges into one loses its null branch; a struct reachable from a union of references without explicit discriminator keeps one constant string / constant reference field only. Non-trivial: nesting depth >= 3 with a union, enum or struct in a non-top-level position; distinct by case hash. Labels union_shape_recurs* say how often a union shape recurs within a package and whether an occurrence is a non-required field.",
 		"a chain that returns an error is an acceptable outcome (counted as rejected)",
 		"a panic inside the chain is not a C06 matter (C04); such cases are skipped and counted",
+		"a chain that gives two different results on one input is C03's matter: when the pipeline's result and the replayed chain disagree the evaluation is repeated (3 times), then skipped and counted (skipped_unstable_chain); the one known source (two discriminator candidates) is excluded by construction",
 		"tools.UpperCamelCase is trusted for the Go prefix rule",
+		"oracle 2 only judges fields whose key exists before and after the pass (a field moved to a new object by a pass is judged by oracle 1 alone)",
+		"losing the null of `A | B | null` in a REQUIRED field is not judged: the statement speaks of non-required fields and of two-branch T|null unions only",
 	)
 	if vlib.RunReplay(t, run, c06Check) {
 		return
@@ -243,8 +295,11 @@ func TestC06(t *testing.T) {
 	cfg := c06Config()
 	rapid.Check(t, func(rt *rapid.T) {
 		c := c06Case{IR: irgen.Draw(rt, cfg)}
+		reuseLabels := c06Reuse(rt, c.IR)
+		c06ExcludeKnownRegions(run, c.IR)
 		c.Lang = rapid.SampledFrom(cogx.CodeLanguages).Draw(rt, "lang")
-		labels := []string{"lang:" + c.Lang}
+		labels := append([]string{"lang:" + c.Lang}, reuseLabels...)
+		labels = append(labels, c06ShapeLabels(c.IR)...)
 		maxDepth := 0
 		nested := false
 		c.IR.Walk(func(_ string, _ string, path string, ts *irgen.TypeSpec) {
@@ -274,6 +329,10 @@ func TestC06(t *testing.T) {
 		for _, v := range vs {
 			if v.Sig == "skip:rejected" {
 				labels = append(labels, "rejected")
+				continue
+			}
+			if v.Sig == "skip:unstable-chain" {
+				run.Count("skipped_unstable_chain", 1)
 				continue
 			}
 			kept = append(kept, v)
